@@ -37,6 +37,8 @@ from slimta.policy.headers import AddDateHeader
 from vp.core import B
 
 ASSUMPTIONS = [
+    'model/Edge.v has no pool parameter: store_pool / relay_pool / bounce_queue only affect scheduling, never the results of enqueue(); this is checked by running the write-fault matrix under 6 non-default Queue configurations against the same model and against the default-configuration run (a relay pool smaller than the number of never-finishing attempts would block enqueue itself: C12 finding, excluded)',
+    'model/Edge.v is generic in the number of envelopes (every theorem quantifies over all lists of write behaviours); the count dimension (up to 100 envelopes) ties that to the code',
     'session stream: validators accept with the default codes (250 / 354) and refuse with 4xx/5xx other than 421 (a 251/252 answer to RCPT or a closing 421/221 is not in the scripted alphabet)',
     'concurrent messages: the model lets every message perform the events of its own sequential run under an arbitrary schedule (per-call state of enqueue/_run_policies is local; the store hands out fresh ids); the concurrent stream checks exactly this on the real code, per client',
     'no SmtpValidators/WsgiValidators class is installed (a handle_queued validator may rewrite the reply arbitrarily)',
@@ -117,7 +119,7 @@ class StoreStub(QueueStorage):
         self.log = log
         self.calls = 0
         self.contents = {}        # id -> list of recipients
-        self.blocked = None       # (k, Event) while a slow write is blocked
+        self.blocked_list = []    # (k, Event) of every slow write that is blocked right now
         self.write_rcpts = []     # recipients of the k-th write
 
     def write(self, envelope, timestamp):
@@ -129,10 +131,10 @@ class StoreStub(QueueStorage):
         self.write_rcpts.append(list(envelope.recipients))
         self.log.append((0, k))
         if slow:
-            ev = Event()
-            self.blocked = (k, ev)
-            ev.wait()
-            self.blocked = None
+            gate = (k, Event())
+            self.blocked_list.append(gate)
+            gate[1].wait()
+            self.blocked_list.remove(gate)
         spec = KINDS[kind]
         if spec is None:
             id = 'id%d' % k
@@ -146,6 +148,10 @@ class StoreStub(QueueStorage):
                 e.reply = mk_reply(spec[1])
             raise e
         raise Boom('stub exception')
+
+    @property
+    def blocked(self):
+        return self.blocked_list[0] if self.blocked_list else None
 
     def stored_rcpts(self):
         return sorted(r for rs in self.contents.values() for r in rs)
@@ -400,8 +406,8 @@ def queue_cases(ctx):
     cases = []
     seen = set()
 
-    def add(chain, kinds, slows, relay=True):
-        c = (chain, tuple(zip(kinds, slows)), relay)
+    def add(chain, kinds, slows, relay=True, cfg='default'):
+        c = (chain, tuple(zip(kinds, slows)), relay, cfg)
         if c not in seen:
             seen.add(c)
             cases.append(c)
@@ -435,7 +441,58 @@ def queue_cases(ctx):
     for L in (1, 2):
         for kinds in itertools.product(CORE, repeat=L):
             add('split', kinds, (False,) * L, relay=False)
+    # COUNT: many envelopes from one message (n recipients under RecipientSplit, n domains with two
+    # recipients each under RecipientDomainSplit); all writes ok / the last one fails / a middle one fails
+    for n in COUNTS:
+        for chain in ('split', 'domain'):
+            for bad in (None, n - 1, n // 2):
+                for failkind in (('qerr',) if ctx.quick else ('qerr', 'qerr550', 'exc')):
+                    kinds = tuple(failkind if i == bad else 'id' for i in range(n))
+                    add(chain, kinds, (False,) * n)
+            if not ctx.quick:
+                add(chain, ('id',) * n, tuple(i == n - 1 for i in range(n)))
+    # CONFIGURATION: the pools of the real Queue x the write-fault matrix
+    for cfg in QUEUE_CONFIGS:
+        if cfg == 'default':
+            continue
+        for L in (1, 2, 3):
+            for kinds in itertools.product(CORE, repeat=L):
+                add('split', kinds, (False,) * L, cfg=cfg)
+                add('split', kinds, tuple(i == L - 1 for i in range(L)), cfg=cfg)
+                if L <= 2 or not ctx.quick:
+                    for p in range(L - 1):
+                        add('split', kinds, tuple(i == p for i in range(L)), cfg=cfg)
+        for kinds in (('id',) * 33, ('id',) * 32 + ('qerr',), ('id', 'qerr') + ('id',) * 38):
+            add('split', kinds, (False,) * len(kinds), cfg=cfg)
     return cases
+
+
+COUNTS = (1, 2, 3, 31, 32, 33, 40, 63, 64, 65, 100)
+
+# constructor arguments of the real Queue that touch enqueue(): store_pool (int or Pool), relay_pool,
+# bounce_queue.  (A bounded relay pool smaller than the number of attempts that never finish would
+# block enqueue() itself - that is C12's bounded-pool finding, not judged here - so the relay pool
+# is large enough for the never-delivering relay stub.)
+QUEUE_CONFIGS = {
+    'default': {},
+    'store_pool=1': dict(store_pool=1),
+    'store_pool=2': dict(store_pool=2),
+    'store_pool=Pool(10)': dict(store_pool='Pool10'),
+    'relay_pool=Pool(200)': dict(relay_pool='Pool200'),
+    'store_pool=2,relay_pool=Pool(200)': dict(store_pool=2, relay_pool='Pool200'),
+    'store_pool=Pool(10),bounce_queue': dict(store_pool='Pool10', bounce_queue=True),
+}
+
+
+def queue_kwargs(cfg):
+    from gevent.pool import Pool
+    kw = {}
+    for k, v in QUEUE_CONFIGS[cfg].items():
+        if k == 'bounce_queue':
+            kw[k] = Queue(StoreStub([], []), None)
+        else:
+            kw[k] = Pool(int(v[4:])) if isinstance(v, str) else v
+    return kw
 
 
 def model_input(behs, hang_at=None, relay=True):
@@ -461,13 +518,13 @@ def canon_trace(t, drop=(4,)):
     return out
 
 
-def run_queue_case(edge_kind, chain, behs, with_relay=True):
+def run_queue_case(edge_kind, chain, behs, with_relay=True, cfg='default'):
     n = len(behs)
     rcpts = recipients_for(chain, n)
     log = []
     store = StoreStub(list(behs), log)
     relay = NeverRelay()
-    queue = Queue(store, relay if with_relay else None)
+    queue = Queue(store, relay if with_relay else None, **queue_kwargs(cfg))
     add_policies(queue, chain)
     r = Run(edge_kind, queue, rcpts, lambda: store.blocked, log, store.stored_rcpts)
     try:
@@ -516,27 +573,42 @@ def run_queue_stream(ctx):
     cases = queue_cases(ctx)
     inputs = []
     index = []
-    for ci, (chain, behs, with_relay) in enumerate(cases):
+    for ci, (chain, behs, with_relay, cfg) in enumerate(cases):
         index.append(len(inputs))
         inputs.append(model_input(behs, relay=with_relay))
         for i, (k, s) in enumerate(behs):
             if s:
                 inputs.append(model_input(behs, hang_at=i, relay=with_relay))
     outs = ctx.model.batch('c02_queue', inputs)
-    for ci, (chain, behs, with_relay) in enumerate(cases):
+    default_answers = {}
+    for ci, (chain, behs, with_relay, cfg) in enumerate(cases):
         m = outs[index[ci]]
         hangs = [outs[index[ci] + 1 + j] for j in range(sum(1 for b in behs if b[1]))]
         for ei, edge_kind in enumerate(('smtp', 'wsgi')):
-            out = run_queue_case(edge_kind, chain, behs, with_relay)
+            out = run_queue_case(edge_kind, chain, behs, with_relay, cfg)
             nontrivial = len(behs) > 1 or behs[0][0] != 'id' or behs[0][1]
-            ctx.evaluated(('queue', edge_kind, chain, behs, with_relay), nontrivial=nontrivial)
-            ctx.count('queue:%s:len%d' % (edge_kind, len(behs)))
+            ctx.evaluated(('queue', edge_kind, chain, behs, with_relay, cfg), nontrivial=nontrivial)
+            if len(behs) > 4:
+                ctx.count('queue:envelopes:%d' % len(behs))
+            if cfg != 'default':
+                ctx.count('queue:config:' + cfg)
+            ctx.count('queue:%s:len%s' % (edge_kind, len(behs) if len(behs) <= 4 else '>4'))
             ctx.count('queue:chain:' + chain)
             ctx.count('queue:answer:%s' % (out['answer'],))
             for k, s in behs:
                 ctx.count('write:' + k + (':slow' if s else ''))
             case = dict(stream='queue', edge=edge_kind, chain=chain, writes=[list(b) for b in behs], relay=with_relay)
+            if cfg != 'default':
+                case['config'] = cfg
             judge_queue(ctx, case, behs, out)
+            # the answer must not depend on the pool configuration (implementation against itself)
+            dkey = (edge_kind, chain, behs, with_relay)
+            if cfg == 'default':
+                default_answers[dkey] = (out['answer'], out['at_reply'])
+            elif dkey in default_answers and default_answers[dkey] != (out['answer'], out['at_reply']):
+                fail(ctx, 'c02:answer-depends-on-pool-configuration', case,
+                     'with %s: answer %r, stored at that instant %r; with the default configuration: %r' % (
+                         cfg, out['answer'], out['at_reply'], default_answers[dkey]))
             # ---- correspondence
             m_trace = canon_trace(m[ei][0])
             m_ans = m[ei][1]
@@ -1451,7 +1523,10 @@ def run(ctx):
     ctx.extra['rule'] = (
         'queue stream: every list of 1-4 storage-write behaviours over {id, QueueError, QueueError+550 reply, other exception} '
         'with no or exactly one slow write at every position, every list of 1-%d behaviours over 8 kinds (attached replies 450/550/250/354/no code) '
-        'with every subset of slow writes, other policy chains (AddDateHeader+RecipientSplit, RecipientDomainSplit, RecipientDomainSplit+RecipientSplit, none) - %d lists, '
+        'with every subset of slow writes, other policy chains (AddDateHeader+RecipientSplit, RecipientDomainSplit, RecipientDomainSplit+RecipientSplit, none), '
+        'a COUNT dimension (one message split into n = 1,2,3,31,32,33,40,63,64,65,100 envelopes by RecipientSplit / RecipientDomainSplit; all writes ok, the last or a middle write failing), '
+        'a CONFIGURATION dimension (the real Queue built with store_pool=1 / 2 / Pool(10), relay_pool=Pool(200), both, bounce_queue set x the write-fault matrix of length 1-3 and 33/40-envelope messages; '
+        'the answer and the storage at that instant must equal the default-configuration run and the pool-free model) - %d lists, '
         'each through the SMTP edge (real Server, command by command on an in-memory socket) and the WSGI edge; '
         'results stream: every result list of length 0-%d over 10 result kinds on both edges (%d lists) + _build_http_response on codes 100-599; '
         'proxy stream: ProxyQueue x %d relay result shapes (whole, mapping/sequence over {None, Reply, PermanentRelayError, TransientRelayError, other} for 1-3 recipients, raised errors) '
@@ -1488,9 +1563,11 @@ def replay(ctx, case):
     with quiet():
         if c.get('stream') == 'queue':
             behs = tuple((k, bool(s)) for k, s in c['writes'])
-            out = run_queue_case(c['edge'], c['chain'], behs, c.get('relay', True))
+            out = run_queue_case(c['edge'], c['chain'], behs, c.get('relay', True), c.get('config', 'default'))
             print('implementation: answer=%r trace=%r stored_at_reply=%r attempted=%r' % (
                 out['answer'], out['log'], out['at_reply'], out['attempted']))
+            print('envelopes expected: %d, storage writes made: %d, recipients NOT in storage at the answer: %r' % (
+                len(behs), out['writes'], [r for r in out['rcpts'] if r not in (out['at_reply'] or [])]))
             if ctx.model:
                 m = ctx.model.call('c02_queue', model_input(behs, relay=c.get('relay', True)))
                 ei = 0 if c['edge'] == 'smtp' else 1
